@@ -269,7 +269,45 @@ HAZARD_TYPES = ['Exception', 'Object', 'Dict', 'Type', 'Bb', 'Bv', 'Struct', 'Un
 HAZARD_NAMESPACES = ['bb', 'bv', 'stone_base', 'typing', 'datetime', 'sys', 'json', 're', 'warnings', 'base', 'ns1', 'a_b']
 
 
+HAZARD_CALLERS = ['teamAdmin', 'Team', 'team_admin2', 'team-admin', 'team admin', '2fa', 'élan']
+
+
+def caller_task(name):
+    """The caller class of Omitted(...) is a free-form string of the spec: the module must load and the field must be there for a
+    caller holding exactly that permission."""
+    specs = [('a.stone', 'namespace a\n\nannotation Om = Omitted("%s")\n\nstruct S\n    pub Int32\n    hid String\n        @Om\n\nstruct C extends S\n    own String?\n        @Om\n\nunion U\n    v\n    t String\n        @Om\n' % name)]
+    inputs = {'specs': specs, 'position': 'omitted-caller', 'name': name}
+    out = impl.compile_specs(specs)
+    if out.kind != 'ok':
+        return {'outcome': 'hazard:not-accepted', 'viol': [], 'n': 1}
+    pkg, fail = impl.build_python_package(out.api)
+    if pkg is None:
+        return {'outcome': 'hazard:generate-failed', 'viol': [viol('hazard-name:omitted-caller:%s:generate' % name, 'python_types fails for a caller class named %r: %s' % (name, fail.identity), inputs, fail.tb)], 'n': 1}
+    try:
+        try:
+            m = pkg.mod('a')
+            ss = pkg.ss
+
+            class CP(ss.CallerPermissionsInterface):
+                @property
+                def permissions(self):
+                    return [name]
+            enc = ss.json_compat_obj_encode(m.C_validator, m.C(pub=1, hid='h', own='o'), caller_permissions=CP())
+            if enc != {'pub': 1, 'hid': 'h', 'own': 'o'}:
+                return {'outcome': 'hazard:differs', 'viol': [viol('hazard-name:omitted-caller:%s:encode' % name, 'a caller holding %r gets %r' % (name, enc), inputs)], 'n': 1}
+            enc2 = ss.json_compat_obj_encode(m.C_validator, m.C(pub=1, hid='h', own='o'))
+            if enc2 != {'pub': 1}:
+                return {'outcome': 'hazard:differs', 'viol': [viol('hazard-name:omitted-caller:%s:leak' % name, 'a caller without permissions gets %r' % (enc2,), inputs)], 'n': 1}
+        except Exception as e:  # noqa
+            return {'outcome': 'hazard:raised', 'viol': [viol('hazard-name:omitted-caller:%s:%s' % (name, type(e).__name__), 'python_types output for a caller class named %r: %s: %s' % (name, type(e).__name__, str(e)[:200]), inputs)], 'n': 1}
+    finally:
+        pkg.close()
+    return {'outcome': 'hazard:same', 'viol': [], 'n': 1}
+
+
 def hazard_task(pos, name):
+    if pos == 'omitted-caller':
+        return caller_task(name)
     if pos == 'field':
         specs = [('a.stone', 'namespace a\n\nstruct S\n    %s Int32\n    x Int32 = 2\n\nunion U\n    %s\n    t2 S\n\nstruct C extends S\n    y %s?\n' % (name, name, 'U'))]
     elif pos == 'type':
@@ -394,6 +432,7 @@ def run(tier, seed):
     for s, tr, pn, fl, d in states[:1] + states[len(states) // 2:len(states) // 2 + 1]:
         r.sample({'profile': pn, 'trace': list(tr), 'specs': render.render(s)})
     hazards = [('hazard', 'field', n) for n in HAZARD_FIELDS] + [('hazard', 'type', n) for n in HAZARD_TYPES] + [('hazard', 'namespace', n) for n in HAZARD_NAMESPACES]
+    hazards += [('hazard', 'omitted-caller', n) for n in HAZARD_CALLERS]
     r.bounds['hazard_identifiers'] = len(hazards)
     # modules that contain a single defaulted field (directly typed, through a local / imported / chained alias): whatever the
     # default needs (imports, helper names) must be brought in by that one field
